@@ -89,6 +89,10 @@ def pipeline(mlar, rng, work, k, tier):
     if comp:
         args += ["-q", str(level)]
     for _, pub in keyset:
+        # recipient keys are documented as accepted in PEM and in DER: use the DER file where the samples have one
+        der = pub.replace(".pem", ".der")
+        if os.path.exists(os.path.join(SAMPLES, der)) and (k + len(pub)) % 2 == 0:
+            pub = der
         args += ["-p", os.path.join(SAMPLES, pub)]
     # `-l` without value must not swallow a file name: put files after `--`
     rc, out, err = run(mlar, args + ["--"] + names, src)
